@@ -764,7 +764,7 @@ let run_check (path : string) =
             chk "C15" "size_bound_after_trim" (Z.ltb (z_of_string sz) b || c.a.live = []) r;
             c.size_bound <- None
           | None -> ())
-       | _ -> chk "C13" "stat_ok" false r)
+       | _ -> if c.copen then chk "C13" "stat_ok" false r)
     | ["disksize"] ->
       (match r, c.last_stat_size with
        | "ok" :: sz :: _, Some st -> chk "C13" "stat_size_equals_files" (Z.eqb (z_of_string sz) st) r
